@@ -52,6 +52,10 @@ def bt? (s : String) : Option BT :=
 def btOut : BT → String
   | .bool => "b" | .f32 => "f32" | .f64 => "f64" | .str => "s" | .num k => nkOut k
 
+/-- map / property keys: hex of the bytes, `_` for the empty key -/
+def key? (k : String) : Option (List Nat) := if k = "_" then some [] else bytes? k
+def keyOut (k : List Nat) : String := if k.isEmpty then "_" else bytesOut k
+
 def sc? (t : String) : Option Sc :=
   match t.splitOn ":" with
   | ["b", "0"] => some (.bool false)
@@ -118,7 +122,7 @@ def parseGs : Nat → List String → Option (GoVals × List String)
 def parseKVs : Nat → List String → Option (GoKVs × List String)
   | 0, _ => none
   | _ + 1, ")" :: r => some (.nil, r)
-  | f + 1, "," :: k :: "," :: r => match bytes? k, parseG f r with
+  | f + 1, "," :: k :: "," :: r => match key? k, parseG f r with
     | some k, some (g, r) => match parseKVs f r with
       | some (kvs, r) => some (.cons k g kvs, r)
       | none => none
@@ -173,7 +177,7 @@ def parseJs : Nat → List String → Option (JSElems × List String)
 def parseJProps : Nat → List String → Option (JSProps × List String)
   | 0, _ => none
   | _ + 1, ")" :: r => some (.nil, r)
-  | f + 1, k :: "," :: r => match bytes? k, parseJ f r with
+  | f + 1, k :: "," :: r => match key? k, parseJ f r with
     | some k, some (v, "," :: r) => match parseJProps f r with
       | some (ps, r) => some (.cons k v ps, r)
       | none => none
@@ -200,7 +204,7 @@ def insertKV (k : List Nat) (v : String) : List (List Nat × String) → List (L
   | (k', v') :: r => if bytesLt k k' then (k, v) :: (k', v') :: r else (k', v') :: insertKV k v r
 
 def joinKVs (l : List (List Nat × String)) : String :=
-  String.join (l.map fun (k, v) => "," ++ bytesOut k ++ "," ++ v)
+  String.join (l.map fun (k, v) => "," ++ keyOut k ++ "," ++ v)
 
 def gtOut : GT → String
   | .iface => "I"
